@@ -115,10 +115,13 @@ def compare_rows(rep, what, case, impl_rows, reply):
     if len(vals) != 7 * n:
         rep.bad(what, case, {"error": "length", "impl": 7 * n, "model": len(vals)})
         return
+    # a row whose exact coefficients cancel to 0 carries rounding residue of the size eps * (largest coefficient of the
+    # matrix): the row scale is floored at 1e-6 of the largest entry of the whole stencil table
+    gmax = max([abs(x) for row in impl_rows for x in row if math.isfinite(x)] + [abs(x) for x in vals if x is not None] + [0.0])
     for r in range(n):
         mrow = vals[7 * r:7 * r + 7]
         irow = impl_rows[r]
-        sc = max([abs(x) for x in irow if math.isfinite(x)] + [abs(x) for x in mrow if x is not None] + [0.0])
+        sc = max([abs(x) for x in irow if math.isfinite(x)] + [abs(x) for x in mrow if x is not None] + [1e-6 * gmax])
         for k in range(7):
             rep.values += 1
             if not close(irow[k], mrow[k], sc):
